@@ -21,11 +21,11 @@ ALPH = {
     "fine": alphabet(prices=(299.99999, 300.0, 300.000005, 300.00001), vols=(1, 2), ttls=(None,), mttls=(None,), dead=(), cancels=2),
     "low": alphabet(prices=(0.4, 1, 2), vols=(1, 2), ttls=(None,), mttls=(None,), dead=(), cancels=2),
 }
-SEEDS_Q = ["two_sided_no_trade", "deep", "ladder_buy", "ladder_sell", "partial", "crossed_off", "crossed_tie", "crossed_flip", "crossed_flip_mirror", "mo_one", "mo_both",
+SEEDS_Q = ["two_sided_no_trade", "quoted_while_off", "deep", "ladder_buy", "ladder_sell", "partial", "crossed_off", "crossed_tie", "crossed_flip", "crossed_flip_mirror", "mo_one", "mo_both",
            "mo_both_eq", "expiring", "same_expiry", "mixed_ttl", "multi_fill", "chunk4", "halftick"]
 
 
-KEY_SEEDS = ["two_sided_no_trade", "ladder_buy", "ladder_sell", "multi_fill", "mo_both", "expiring", "same_expiry", "mixed_ttl", "crossed_tie"]
+KEY_SEEDS = ["two_sided_no_trade", "quoted_while_off", "ladder_buy", "ladder_sell", "multi_fill", "mo_both", "expiring", "same_expiry", "mixed_ttl", "crossed_tie"]
 
 
 def plan(tier, d0=None, dseed=None):
